@@ -322,6 +322,15 @@ func (w *ResponseWriter) WriteMsg(m *dns.Msg) error {
 			m.Extra = append(m.Extra, opt)
 		}
 
+		if opt != w.opt {
+			// The response brought its own OPT (a forwarder's upstream, a
+			// plugin): every option on it was negotiated on that hop, not
+			// with this client — a cookie, NSID, padding or an unknown code
+			// must not be relayed. Only an Extended DNS Error is meant to
+			// travel with the answer.
+			opt.Option = keepEDEOnly(opt.Option)
+		}
+
 		// Set common OPT parameters
 		opt.SetDo(w.do)
 		opt.SetUDPSize(w.respUDPSize)
@@ -418,6 +427,18 @@ func stripECS(opts []dns.EDNS0) []dns.EDNS0 {
 			continue
 		}
 		keep = append(keep, o)
+	}
+	return keep
+}
+
+// keepEDEOnly drops every option of a foreign (upstream-supplied) OPT
+// except RFC 8914 Extended DNS Errors.
+func keepEDEOnly(opts []dns.EDNS0) []dns.EDNS0 {
+	keep := opts[:0]
+	for _, o := range opts {
+		if _, isEDE := o.(*dns.EDNS0_EDE); isEDE {
+			keep = append(keep, o)
+		}
 	}
 	return keep
 }
